@@ -214,12 +214,12 @@ DecideBech(s) ==
                [] s.ver = 1 /\ l = 2 /\ s.anchor -> BechAccept("p2a", s)
                [] OTHER -> Reject
 
-\* What the code does (implementation layer): the switch on the program length
-\* in DecodeAddress does not look at the version for 20-byte programs.
-ImplBech(s) ==
-    IF SegwitOK(s) /\ s.ver = 1 /\ ProgLen(s.ng) = 20
-    THEN [BechAccept("p2wpkh", s) EXCEPT !.ver = 0]
-    ELSE DecideBech(s)
+\* What the code does (implementation layer).  Until btcd 0331262a the switch on
+\* the program length in DecodeAddress did not look at the version for 20-byte
+\* programs (a v1 program came back as a v0 P2WPKH address); the repaired code
+\* refuses them, so the layers coincide.  The operator is kept: the binder
+\* compares with both layers and a regression is a plain violation.
+ImplBech(s) == DecideBech(s)
 
 (* Base58Check form: v version byte (-1: a byte no table mentions), plen   *)
 (* payload length, ck "ok"/"bad", defect "none" / "badchar" (symbol outside*)
@@ -237,8 +237,9 @@ DecideB58(s, dn) ==
 
 \* What the code does: the dispatch of DecodeAddress looks at the text first; a
 \* Base58Check string that looks like prefix + '1' + data is handed to the
-\* bech32 decoder, whose error is final.
-ImplB58(s, dn) == IF s.segprefix THEN Reject ELSE DecideB58(s, dn)
+\* bech32 decoder.  Until btcd 0331262a that decoder's error was final; the
+\* repaired code then tries Base58Check, so the layers coincide.
+ImplB58(s, dn) == DecideB58(s, dn)
 
 (* hex public key form: nchars 66 / 130, hexok, prefix byte class          *)
 (* (2,3,4,6,7 or 0 for any other), oncurve (x has a square root / (x,y) is *)
